@@ -1,6 +1,6 @@
 import MypyVerif.Proofs.LangSoundS
 /-!
-# C01 — accepted programs do not go wrong (MiniPy fragment, stages 1–3)
+# C01 — accepted programs do not go wrong (MiniPy fragment, stages 1–4)
 
 `soundness`: for every well-formed program `P` that the algorithmic checker `tc` (the transcription of mypy's
 rules on the fragment, `Model/LangTc.lean`) accepts with probe type map `tm`, for **every** fuel, every consistent
@@ -15,7 +15,7 @@ The full-strength statement (all programs mypy accepts) is **false** of the curr
 fails inside this fragment are kept visible as theorems with concrete witnesses:
 * `not_soundness_F19`, `not_soundness_F18` — without `WF` (declared-but-unassigned attribute; covariant
   redeclaration of a mutable attribute) `tc` accepts and evaluation ends in AttributeError / TypeError;
-* `hole_union_setattr`, `hole_loop_cap`, `hole_union_isinstance_mi`, `hole_masked_assignment` — the rules where `tc` deliberately
+* `hole_union_setattr`, `hole_loop_cap`, `hole_union_isinstance_mi`, `hole_masked_assignment`, `hole_finally_jump` — the rules where `tc` deliberately
   answers `hole k` instead of mypy's "accept" (assignment to an attribute through a union receiver; the 4-pass
   cap of `accept_loop`; isinstance on a union dropping an item that shares a subclass with the tested class):
   well-formed witnesses on which evaluation ends in TypeError / AttributeError.
@@ -308,6 +308,81 @@ theorem hole_masked_assignment :
     WF progMaskedAssign ∧ tc progMaskedAssign = .error (.hole 4) ∧
     (evalCall 40 progMaskedAssign (progMaskedAssign.funcs[1]!) [.none, .int 3] { heap := [], log := [] }).1 = .error .typeError := by
   decide
+
+/-- a `break` that passes through a `finally` clause assigning a local: the state after the loop is the one recorded
+    at the `break`
+```python
+def f0(p0: int) -> int:
+    v0: Optional[int] = 0
+    v0 = 0
+    while 0 < p0:
+        try:
+            v0 = 1
+            break
+        except (ValueError,): return 0
+        finally:
+            v0 = None
+    return v0 + 1          # mypy: v0 is int
+```
+-/
+def progFinallyJump : Prog :=
+  { classes := [],
+    funcs := [
+      { params := [[.int]], locals := [[.int, .none]], ret := [.int],
+        body :=
+          .seq (.decl 1 (.intLit 0)) <|
+          .seq (.assign 1 (.intLit 0)) <|
+          .seq (.while (.lt (.intLit 0) (.var 0))
+                 (.tryS (.seq (.assign 1 (.intLit 1)) .brk) [0] (.ret (.intLit 0)) .pass (.assign 1 .noneLit) true)) <|
+          .ret (.add (.var 1) (.intLit 1)) }] }
+
+theorem hole_finally_jump :
+    WF progFinallyJump ∧ tc progFinallyJump = .error (.hole 6) ∧
+    (evalCall 40 progFinallyJump (progFinallyJump.funcs[0]!) [.int 1] { heap := [], log := [] }).1 = .error .typeError := by
+  decide
+
+/-- exceptions inside the theorem: an assignment in a *nested* try is visible in the outer handler
+```python
+def f0(p0: int) -> int:
+    v0: Optional[int] = 0
+    v0 = 0
+    try:
+        try:
+            v0 = None
+            if p0 < 1: raise ValueError()
+            v0 = 5
+        except (IndexError,):
+            v0 = 0 - 1
+    except (ValueError,):
+        probe(6, v0)                 # int | None
+        return 0
+    finally:
+        probe(7, p0)                 # checked twice: both records are in the map
+    probe(8, v0)                     # int
+    return v0
+```
+-/
+def progTry : Prog :=
+  { classes := [],
+    funcs := [
+      { params := [[.int]], locals := [[.int, .none]], ret := [.int],
+        body :=
+          .seq (.decl 1 (.intLit 0)) <|
+          .seq (.assign 1 (.intLit 0)) <|
+          .seq (.tryS
+                 (.tryS (.seq (.assign 1 .noneLit) <|
+                         .seq (.ite (.lt (.var 0) (.intLit 1)) (.raise 0) .pass) <|
+                         .assign 1 (.intLit 5))
+                        [1] (.assign 1 (.sub (.intLit 0) (.intLit 1))) .pass .pass false)
+                 [0] (.seq (.expr (.probe 6 (.var 1))) (.ret (.intLit 0))) .pass
+                 (.expr (.probe 7 (.var 0))) true) <|
+          .seq (.expr (.probe 8 (.var 1))) <|
+          .ret (.var 1) }] }
+
+example : WF progTry ∧ tc progTry = .ok [(6, [.int, .none]), (7, [.int]), (7, [.int]), (8, [.int])] := by decide
+example : evalCall 40 progTry (progTry.funcs[0]!) [.int 0] { heap := [], log := [] }
+    = (.ok (.int 0), { heap := [], log := [(7, .int 0), (6, .none)] }) := by decide
+example : (evalCall 40 progTry (progTry.funcs[0]!) [.int 3] { heap := [], log := [] }).1 = .ok (.int 5) := by decide
 
 /-- multiple inheritance inside the theorem: a diamond `K0; K1(K0); K2(K0); K3(K1, K2)` with `m0` overridden in
     K1 and K2 (compatible signatures); a `K2`-typed parameter holding a `K3` dispatches to `K1.m0` (MRO 3,1,2,0) -/
